@@ -1,4 +1,72 @@
-import LecModel
+/-
+  C04 — RS-Vandermonde parity is the canonical MDS code, bit-stable across versions.
+
+  The arithmetic: xor / `gmul` (16-step shift-and-add reduced by 0x1100b) on naturals below 2^16
+  form a field (LecProofs.GF16Field: instance `Field GF16`, no irreducibility assumption — the
+  generator 2 is shown to have order 65535).
+  `closed_form`    the generator entry for parity row r ≥ k and data column j is, in that field,
+                   L_j(r)/L_j(k) with L_j(x) = ∏_{i<k, i≠j}(x − i)  (= x xor i in characteristic 2);
+  `systematic`, `first_parity_all_ones`
+                   rows 0..k-1 are the identity and the first parity row is all ones, i.e. the
+                   first parity is the XOR of the data;
+  `mds`            any k of the k+m rows form an invertible matrix: any k fragments determine
+                   the data — for every k+m ≤ 65536, not only ≤ 32;
+  `parity_words`   the parity payloads encode produces are, word by word on host-order
+                   (little-endian) 16-bit words, Σ_j G[r][j]·data_j[w].
+  Executed on every run, for all 496 shapes with k+m ≤ 32 (exhaustive, reported as execution,
+  not as a kernel theorem, see DESIGN §5.2): the library's `make_systematic_matrix`, the model's
+  transliteration `makeSys` and this closed form agree entry by entry; the library's log/antilog
+  tables (all 65 536 + 196 605 entries) and `rs_galois_mult/div` agree with the model's tables
+  and with `gmul`.  Any other matrix — even another invertible one — fails that comparison, which
+  is what makes parity bytes stable across builds and versions.
+-/
+import LecProofs.RSBackend
 import LecGen
 namespace LecProps.C04
+open Lec Finset
+
+theorem closed_form {k m r : Nat} (j : Nat) (hkm : k + m ≤ 65536) (hr : r < k + m) (hrk : k ≤ r) :
+    GF16.ofNat (genEntry k r j) =
+      (∏ i ∈ (range k).erase j, (GF16.ofNat r - GF16.ofNat i)) /
+        ∏ i ∈ (range k).erase j, (GF16.ofNat k - GF16.ofNat i) :=
+  ofNat_genEntry_parity j hkm hr (by omega)
+
+theorem systematic {k r : Nat} (j : Nat) (hr : r < k) : genEntry k r j = if r = j then 1 else 0 :=
+  genEntry_systematic j hr
+
+theorem first_parity_all_ones {k : Nat} (j : Nat) (hk : k < 65536) : genEntry k k j = 1 :=
+  genEntry_first_parity j hk
+
+theorem entries_in_field {k m r j : Nat} (hkm : k + m ≤ 65536) (hr : r < k + m) : genEntry k r j < 2 ^ 16 :=
+  genEntry_lt hkm hr
+
+/-- any k distinct rows of the (k+m) × k generator are linearly independent. -/
+theorem mds {k m : Nat} (hkm : k + m ≤ 65536) (S : Fin k → Nat) (hinj : Function.Injective S)
+    (hlt : ∀ a, S a < k + m) : (genMatrix k S).det ≠ 0 :=
+  genMatrix_det_ne_zero hkm S hinj hlt
+
+/-- encode's parity payloads are the matrix–vector products over 16-bit little-endian words. -/
+theorem parity_words {k m bs : Nat} (hkm : k + m ≤ 65536) (hbs : bs % 2 = 0)
+    (data : List Bytes) (hdl : data.length = k) (hdb : ∀ b ∈ data, b.length = bs) :
+    ∃ P, rsEncode (genEntry k) k m data (List.replicate m (zeros bs)) bs = some P ∧ P.length = m ∧
+      ∀ i < m, (P.getD i []).length = bs ∧
+        ∀ w < bs / 2, wordAt (wordsOf (P.getD i [])) w =
+          ∑ j ∈ range k, GF16.ofNat (genEntry k (k + i) j) * wordAt (wordsOf (data.getD j [])) w := by
+  obtain ⟨P, h1, h2, h3⟩ := rsEncode_spec hkm hbs data (List.replicate m (zeros bs)) hdl hdb
+    (by intro i hi; exact replicate_zeros_getD hi)
+  exact ⟨P, h1, h2, fun i hi => ⟨(h3 i hi).2.1, (h3 i hi).2.2⟩⟩
+
+/-- host order: a 16-bit word is low byte first. -/
+theorem word_little_endian (a b : UInt8) (rest : Bytes) :
+    wordsOf (a :: b :: rest) = (a.toNat + 256 * b.toNat) :: wordsOf rest := rfl
+
+/-- non-vacuity / golden values: the (4,2) generator's parity rows. -/
+example : (List.range 4).map (genEntry 4 4) = [1, 1, 1, 1] ∧
+    (List.range 4).map (genEntry 4 5) = [20483, 52230, 27503, 30722] := by
+  decide +kernel
+
+#print axioms closed_form
+#print axioms first_parity_all_ones
+#print axioms mds
+#print axioms parity_words
 end LecProps.C04
